@@ -137,6 +137,21 @@ def c21(facts, rep):
     return n, len(psh)
 
 
+def reason_sites(fc):
+    """[(bb, reason variant, line)]: statements that name a SampleRejectedStatusKind variant — directly inside
+    AddChangeResult::Rejected(..) or on its way there (`let reason = if .. { Some(A) } ..; return Rejected(h, reason)`)"""
+    out = []
+    seen = set()
+    for bb, i, s in fc.mir.stmts():
+        if s.kind != "assign" or s.rv is None or s.rv.kind not in ("aggregate", "use"):
+            continue
+        for x in E.walk(fc.rv_expr(s)):
+            if x[0] == "adt" and str(x[1]).endswith("SampleRejectedStatusKind") and (bb, x[2]) not in seen:
+                seen.add((bb, x[2]))
+                out.append((bb, x[2], s.line))
+    return out
+
+
 # ---------------------------------------------------------------------------------------- C18
 
 
@@ -150,16 +165,13 @@ def c18(facts, rep):
     add("R18", "switch on qos.history.kind present", bool(hist_sw), "no discriminant switch on history.kind")
     n = 0
     # R18a: the depth-related rejections are decided only after the KEEP_LAST decision
-    for bb, i, s in fc.aggregates("AddChangeResult", "Rejected"):
-        e = fc.rv_expr(s)
-        reason = e[3][1] if len(e[3]) > 1 else None
-        rname = reason[2] if reason and reason[0] == "adt" else "?"
+    for bb, rname, line in reason_sites(fc):
         if rname in ("RejectedBySamplesPerInstanceLimit", "RejectedBySamplesLimit"):
             n += 1
             ok = bool(hist_sw) and bb not in m.reachable(0, removed_blocks=hist_sw)
             add("R18a", "%s is decided only after the KEEP_LAST eviction decision" % rname, ok,
                 "the limit is tested before history.kind is looked at: with KEEP_LAST(depth) and max_samples_per_instance == depth "
-                "(or max_samples reached by this instance) a new sample is rejected instead of replacing the oldest one", s.line)
+                "(or max_samples reached by this instance) a new sample is rejected instead of replacing the oldest one", line)
     # R18b/c: eviction only for KEEP_LAST with full depth, removes the oldest alive sample of the instance
     rem = removals(fc)
 
@@ -256,14 +268,12 @@ def c19_reader(facts, rep):
                 "sample_list insertion reachable without the negative edge of the %s test; witness %s" % (lim, found.get(bb)), t.line)
     # R19b: each rejection reason behind the true edge of the matching test
     nr = 0
-    for bb, i, s in fc.aggregates("AddChangeResult", "Rejected"):
-        e = fc.rv_expr(s)
-        reason = e[3][1] if len(e[3]) > 1 else None
-        rname = reason[2] if reason and reason[0] == "adt" else "?"
+    has_rejected = bool(fc.aggregates("AddChangeResult", "Rejected"))
+    for bb, rname, sline in (reason_sites(fc) if has_rejected else []):
         lim = [k for k, v in LIMIT_FIELDS.items() if v == rname]
         nr += 1
         if not lim:
-            add("R19b", "rejection reason is one of the three limits", False, "reason %s" % rname, s.line)
+            add("R19b", "rejection reason is one of the three limits", False, "reason %s" % rname, sline)
             continue
 
         def guard(e2, outcome, ce, lim=lim[0]):
@@ -274,7 +284,7 @@ def c19_reader(facts, rep):
             return False
         found = fc.reach_avoiding([bb], guard)
         add("R19b", "Rejected(%s) only when the %s test is positive" % (rname, lim[0]), bb not in found,
-            "rejection with this reason reachable without its own limit test; witness %s" % found.get(bb), s.line)
+            "rejection with this reason reachable without its own limit test; witness %s" % found.get(bb), sline)
     # R19c: the instances that count against max_instances are all instances with a stored sample, whatever its kind
     nm = 0
     for bb, t in fc.calls("Iterator::map"):
